@@ -24,7 +24,10 @@ MANIFEST = {
             "back; session ids are fresh, an ended id is never valid again and commands on it change nothing; time-out is exact for each "
             "kind of session with ITS OWN parameter, in every reachable state no listed session is past its time-out and only an accepted "
             "command moves the clock of exactly the session it travels on (a local session's clock never moves); a password change ends "
-            "every session of the user; an enabled admin always remains, whichever of the five account editors is used, accounts are never "
+            "every session of the user; which ending event needs which service is proved row by row (the time-out needs none: it ends the "
+            "session and its connection in every power / service state and for ever after; password change needs the user-manager only; "
+            "the logouts need a running session manager); a password stays what it is until a change_password for that user; sessions "
+            "survive a power cycle of their node within their time-out (observation, stated as theorems); an enabled admin always remains, whichever of the five account editors is used, accounts are never "
             "removed / renamed / demoted / overwritten, and any configured user list starts with an enabled admin; the session limit is "
             "never exceeded and a login succeeds again once a session ended; a local command / local login changes nothing unless the "
             "credentials supplied WITH it are the current password of an enabled account (also while that user is logged in, after "
@@ -131,6 +134,16 @@ def _sample(rng, items: list, k: int):
     if k < len(items):
         idx = sorted(rng.shuffle(idx)[:k])
     return [(i, items[i]) for i in idx]
+
+
+def _thin(rng, cases: list, cap: int) -> list:
+    fam = {}
+    for i, (name, _) in enumerate(cases):
+        fam.setdefault(name.split(":")[0], []).append(i)
+    keep = set()
+    for f, idx in fam.items():
+        keep |= set(idx if len(idx) <= cap else rng.fork(f).shuffle(idx)[:cap])
+    return [c for i, c in enumerate(cases) if i in keep]
 
 
 def _run_impl_chunk(chunk: List[dict]):
@@ -243,6 +256,12 @@ def run(ctx: Ctx):
     rng = ctx.rng.fork("sess")
     for k in range(ctx.scale(500, 6000)):
         cases.append((f"gen:{k}", rig.gen_case(rng, max_ops=ctx.scale(30, 60))))
+
+    # quick tier: of every bounded-exhaustive family with more than 800 sequences a seeded sample of 800 is run (another sample for
+    # every VERIF_SEED; the thorough tier runs all of them): keeps the tier under its time limit on the loaded machine
+    if not ctx.thorough:
+        cases = _thin(ctx.rng.fork("thin"), cases, 800)
+        ctx.notes.append("quick tier: families exhadmin / exhroute / exhmedium / exhends / exhlocal are seeded samples of 800 sequences each")
 
     # implementation side, then ONE driver run for all cases
     impl_all, lines_all, bounds, aux = [], [], [], []
